@@ -472,7 +472,10 @@ func (s *Server) handleConnReceiver(module *Module, crd *rsyncwire.CountingReade
 		// Descend into subdirectory (if requested),
 		// using the os.OpenRoot traversal-safe API.
 		if len(paths) == 1 && paths[0] != "/" {
-			subdir := strings.TrimPrefix(paths[0], "/")
+			// Clean the path: it comes from the client, and a trailing
+			// slash makes os.Root (Go 1.25.0) follow a symlink out of the
+			// module in the last component.
+			subdir := filepath.Clean(strings.TrimPrefix(paths[0], "/"))
 			subRoot, err := rt.DestRoot.OpenRoot(subdir)
 			if err != nil {
 				if os.IsNotExist(err) {
